@@ -530,8 +530,13 @@ func crashSig(logPath string) string {
 		}
 		if frame == "" && strings.HasPrefix(l, "github.com/aundis/formula.") {
 			f := strings.TrimPrefix(l, "github.com/aundis/formula.")
-			if i := strings.IndexAny(f, "({"); i > 0 {
-				f = f[:i]
+			// cut the argument list (method frames start with a parenthesised receiver: "(*Runner).resolve(0xc000...)")
+			start := 0
+			if strings.HasPrefix(f, "(") {
+				start = strings.Index(f, ")") + 1
+			}
+			if i := strings.IndexAny(f[start:], "({"); i > 0 {
+				f = f[:start+i]
 			}
 			frame = "formula." + f
 		}
